@@ -149,6 +149,19 @@ def _replay_chunk(args):
     wd = os.path.join(wdroot, 'w%d' % os.getpid())
     os.makedirs(wd, exist_ok=True)
     sys.setrecursionlimit(3000)
+    # the convert() wrapper falls back to the unconverted function when the conversion fails (with a warning): that
+    # would hide a conversion failure behind a correct result, so the warning is a conversion error here
+    from malt.utils import ag_logging
+    from malt.impl import api as _api, conversion as _conv
+    fallback = []
+
+    def _warn(msg, *a, **k):
+        try:
+            text = msg % a if a else str(msg)
+        except Exception:
+            text = str(msg)
+        fallback.append(text)
+    ag_logging.warning = _warn
     out = []          # divergences
     n = 0
     conv_errors = []
@@ -180,8 +193,11 @@ def _replay_chunk(args):
                 del recorder.calls[:]
                 del recorder.events[:]
                 recorder.counts = {}
+            del fallback[:]
             res = observe(m, g, p, rec['dec'], recorder)
             n += 1
+            if fallback and 'could not transform' in fallback[0]:
+                conv_errors.append(dict(pid=pid, opt=o['name'], error='ConversionFallback: ' + ' '.join(fallback[0].split())[:300]))
             if recorder is not None:
                 for c in recorder.calls:
                     c['pid'] = pid
